@@ -272,7 +272,15 @@ pub fn c04_req(ctx: &mut Ctx, log: &mut Log, im: &mut Impl, or: &mut Oracle) {
             log.case(&format!("c04r-{ci}-{k}"));
             let free = new_parser(log, im, b, mc);
             let f = feed_req(log, im, or, &wire, ch, &mut rng, free, "C04");
-            let res = ex(log, im, "req.into_request");
+            // every other chunking converts into the STREAM parser instead: the replies were all handed out through parse()'s output, so
+            // the stream parser must start with an empty output buffer (nothing is emitted a second time after the hand-off)
+            let res = if k % 2 == 1 {
+                let r0 = ex(log, im, "req.peek");
+                let o = ex(log, im, "req.into_stream");
+                if o.starts_with("ok ") && field(&o, "outbuf") != Some("-") { or.fail(format!("into_stream_parser handed over a non-empty output buffer ({}): replies already emitted would be sent again", field(&o, "outbuf").unwrap_or("?").chars().take(40).collect::<String>()), log.replay_block(), "C04:handover-output".into()); }
+                or.count("conversions_into_stream_parser");
+                r0
+            } else { ex(log, im, "req.into_request") };
             if f.out != exp {
                 let d = f.out.iter().zip(exp.iter()).position(|(a, b)| a != b).unwrap_or(f.out.len().min(exp.len()));
                 or.fail(format!("request parser emitted {} reply bytes, the specification prescribes {} (first difference at byte {d}); chunking {ch:?}; emitted {}… expected {}…", f.out.len(), exp.len(), hexd(&f.out[d.saturating_sub(8)..f.out.len().min(d + 24)]), hexd(&exp[d.saturating_sub(8)..exp.len().min(d + 24)])),
